@@ -27,6 +27,10 @@ Proof.
     + apply negb_true_iff, N.eqb_neq in H. contradiction.
     + now apply entry_eqb_full_eq.
   - intros H. now apply Z.ltb_lt.
+  - intros H l e L AE a Ha Hh. rewrite L, AE in H. rewrite forallb_forall in H. specialize (H a Ha).
+    apply orb_true_iff in H. destruct H as [H|H].
+    + apply negb_true_iff, N.eqb_neq in H. contradiction.
+    + now apply entry_eqb_full_eq.
 Qed.
 
 Theorem wfb_wf ops : wfb ops = true -> wf ops.
